@@ -371,6 +371,7 @@ func actUnprotect(e *Env, a J) J {
 		obs := errObs(err)
 		obs["hdrused"] = used
 		obs["neither"] = err == nil && m == nil // a decoding entry point returns a value or an error
+		obs["both"] = err != nil && m != nil    // ... EITHER a value OR an error: no (half-filled) message next to an error
 		if o != nil {
 			obs["decrypts"] = o.log.Decrypts - before.Decrypts
 			obs["macs"] = o.log.Sums - before.Sums
